@@ -55,6 +55,10 @@ CANDS_BIG.update({"r/c": "dir", "r/c/__init__.py": "file", "r/c/d.py": "file", "
 CANDS_PFX = {"r": "dir", "r/rb": "dir", "r/rb/m.py": "file", "r/rb/n.py": "file", "r/r": "dir", "r/r/m.py": "file", "r/r/n.py": "file", "r/k.py": "file",
              "r/rb/pyk.py": "file", "r/pyd": "dir", "r/pyd/q.py": "file"}
 
+# a directory reachable twice: r/v is a symbolic link to r/common (both locations are directories of the tree)
+CANDS_LINK = {"r": "dir", "r/common": "dir", "r/common/k.py": "file", "r/common/h.py": "file", "r/m.py": "file", "r/v": "dir", "r/v/k.py": "file", "r/v/h.py": "file", "r/w": "dir", "r/w/n.py": "file"}
+LINKS = {"r/v": "r/common"}
+
 LINESETS = {
     "qualified": {
         "r/a/m.py": ["import r.ab", "from r.a.x import u"],
@@ -83,6 +87,11 @@ LINESETS = {
         "r/rb/n.py": ["from rb.m import thing"],
         "r/rb/pyk.py": ["import r.pyd.q", "from . import m"],
         "r/pyd/q.py": ["import r.rb.pyk"],
+    },
+    "linked": {
+        "r/common/k.py": ["import r.m", "from . import h"],
+        "r/m.py": ["import r.v.k", "import r.common.h"],
+        "r/w/n.py": ["from r.v import h"],
     },
     "deep": {
         "r/a/x/y/v.py": ["from . import vv", "from ... import m", "import r.a.x.u"],
@@ -157,7 +166,7 @@ def lazy_view(model: FSModel):
     for p in sorted(model.cands, key=lambda q: q.count("/")):
         if model.exists(p):
             ex.add(p)
-    txt = {p: model.present_lines(p) for p in model.lines if p in ex}
+    txt = {p: model.present_lines(p) for p in ex if p in model.lines or model.target(p) in model.lines}
     return ex, txt
 
 
@@ -209,7 +218,7 @@ def judge(model: FSModel, view, mp_rel: str, got, full=None):
 
 
 def make_model(inst) -> FSModel:
-    cands = CANDS_DEEP if inst["lines"] == "deep" else CANDS_BIG if inst["lines"] == "big" else CANDS_PFX if inst["lines"] == "prefixpkg" else CANDS
+    cands = CANDS_DEEP if inst["lines"] == "deep" else CANDS_BIG if inst["lines"] == "big" else CANDS_PFX if inst["lines"] == "prefixpkg" else CANDS_LINK if inst["lines"] == "linked" else CANDS
     mp = inst["mp"]
     fixed = {}
     p = mp
@@ -218,7 +227,7 @@ def make_model(inst) -> FSModel:
         p = os.path.dirname(p)
     for k, v in inst.get("fixed", {}).items():
         fixed[k] = v
-    return FSModel(cands, LINESETS[inst["lines"]], fixed=fixed)
+    return FSModel(cands, LINESETS[inst["lines"]], fixed=fixed, links=LINKS if inst["lines"] == "linked" else None)
 
 
 def harness(inst, model: FSModel):
@@ -243,6 +252,8 @@ def instances(tier: str) -> list[dict]:
         big_fixed = {"r/notes.txt": False, "r/empty": False, "r/a_b": False}
         for mp in ("r", "r/a", "r/c", "r/a/x"):
             out.append({"part": "scan", "mp": mp, "entry": "path", "lines": "big", "relational": mp != "r", "fixed": big_fixed, "cap": CAPS[tier]})
+    for mp in ("r", "r/v"):
+        out.append({"part": "scan", "mp": mp, "entry": "path", "lines": "linked", "relational": mp != "r", "fixed": {"r/common": True}, "cap": CAPS[tier]})
     deep_fixed = {"r/ab.py": False, "r/a_b": False, "r/notes.txt": False, "r/empty": False, "r/a/__init__.py": False}
     for mp in ("r", "r/a/x", "r/a/x/y") if tier == "thorough" else ("r/a/x",):
         out.append({"part": "scan", "mp": mp, "entry": "path", "lines": "deep", "relational": mp != "r", "fixed": deep_fixed, "cap": CAPS[tier]})
@@ -322,7 +333,7 @@ def run(tier: str, only: str | None = None) -> int:
         "SymFS stub at the pathlib/open boundary (pytestarch.pytestarch.Path, parser-module open); existence bits closed under parent by construction; module_path itself exists",
         "imports of the importing file's own ancestors and imports leaving the scanned sub-tree (external, excluded by default) are don't-care",
         "Parser._get_module_name runs through pathlib, which needs real str objects: no CrossHair kernel (probed: every path aborts); names are the concrete ones of the candidate universe, incl. prefix siblings a / ab / a_b",
-        "symlinks, non-UTF-8 sources, names containing separators or dots, b.py beside b/ are outside",
+        "a directory symlink inside the tree (r/v -> r/common) is modelled by SymFS (both locations are directories of the tree); symlink cycles, file symlinks, links leaving the tree, non-UTF-8 sources, names containing separators or dots, b.py beside b/ are outside",
     ]
     rep.stubs = ["SymFS (SymPath, open)"]
     items.sort(key=lambda i: 0 if i["part"] == "kernel" else 1)
